@@ -204,7 +204,9 @@ where
     config.cases = cases_per_shard;
     config.failure_persistence = None;
     config.max_shrink_iters = max_shrink_iters;
-    config.max_shrink_time = 0;
+    // shrinking is bounded by wall-clock time as well: it only starts after a failure has been
+    // found, so the bound never turns a pass into a failure or vice versa
+    config.max_shrink_time = 45_000;
     config.verbose = 0;
     config.max_global_rejects = 1_000_000;
     let rng = TestRng::from_seed(RngAlgorithm::ChaCha, &seed);
@@ -293,6 +295,27 @@ where
     }
   });
   out.into_inner().unwrap().into_iter().map(|x| x.expect("worker died")).collect()
+}
+
+// Deadline helper for the structural minimisers (same reasoning as max_shrink_time).
+pub struct Deadline(std::time::Instant);
+impl Deadline {
+  pub fn after_secs(s: u64) -> Deadline {
+    Deadline(std::time::Instant::now() + std::time::Duration::from_secs(s))
+  }
+  pub fn passed(&self) -> bool {
+    std::time::Instant::now() >= self.0
+  }
+}
+
+// A check that runs far beyond its budget (for instance because a changed loop sleeps) is
+// reported as an infrastructure problem (exit 2), never as a violation.
+pub fn start_watchdog(seconds: u64) {
+  std::thread::spawn(move || {
+    std::thread::sleep(std::time::Duration::from_secs(seconds));
+    eprintln!("[watchdog] the check did not finish within {} s: inconclusive (exit 2)", seconds);
+    std::process::exit(2);
+  });
 }
 
 pub fn install_quiet_panic_hook() {
